@@ -68,7 +68,12 @@ Definition rows (E : key -> Prop) (s : state) : Prop := forall k, ~ E k -> row_o
 
 (* E: the keys inside the window of [run] between [complete] and the end of the discovered dependencies *)
 Definition Good (E : key -> Prop) (s : state) : Prop :=
-  bnd s /\ sync s /\ rows E s /\ closed E s /\ current s.
+  bnd s /\ sync s /\ rows E s /\ closed E s /\ current s /\ (forall k, E k -> done s k).
+
+(* every value handed to a task is the clean value of the input *)
+Definition prov_ok (e : event) : Prop :=
+  match e with EProvide _ _ d v => v = cvk d | _ => True end.
+Definition provs_ok (s s' : state) : Prop := exists l, st_log s' = l ++ st_log s /\ Forall prov_ok l.
 
 (* between builds: nothing that mentions the environment *)
 Definition AtRest (s : state) : Prop :=
@@ -120,8 +125,8 @@ Variable F : key -> N -> list value -> list N -> N -> N.
 Variable rank : key -> nat.
 Hypothesis Hrank : wf_rank rules rank.
 
-Let cv := cv rules env F.
-Let cvk := cvk rules env F rank.
+Let cvf := cv rules env F.
+Let cvK := cvk rules env F rank.
 
 Lemma rank_req : forall k x, In x (r_req (rules k)) -> (rank x < rank k)%nat.
 Proof. intros k x H. apply Hrank, in_mentioned. tauto. Qed.
@@ -135,12 +140,12 @@ Lemma rank_disc : forall k x, In x (r_disc (rules k)) -> (rank x < rank k)%nat.
 Proof. intros k x H. apply Hrank, in_mentioned. tauto. Qed.
 
 Lemma cv_fuel_some : forall f1 k, (rank k < f1)%nat ->
-  (exists v, cv f1 k = Some v) /\ forall f2, (rank k < f2)%nat -> cv f2 k = cv f1 k.
+  (exists v, cvf f1 k = Some v) /\ forall f2, (rank k < f2)%nat -> cvf f2 k = cvf f1 k.
 Proof.
   induction f1 as [|f1 IH]; intros k Hk; [lia|].
   assert (Hsub : forall l, (forall x, In x l -> (rank x < rank k)%nat) ->
-            map_opt (cv f1) l = Some (map (fun x => payload_of (cv f1 x)) l) /\
-            forall f2, (rank k <= f2)%nat -> map_opt (cv f2) l = map_opt (cv f1) l).
+            map_opt (cvf f1) l = Some (map (fun x => payload_of (cvf f1 x)) l) /\
+            forall f2, (rank k <= f2)%nat -> map_opt (cvf f2) l = map_opt (cvf f1) l).
   { intros l Hl. split.
     - apply map_opt_some. intros x Hx. destruct (IH x) as [[v Hv] _]; [specialize (Hl x Hx); lia|].
       now rewrite Hv.
@@ -150,19 +155,78 @@ Proof.
   destruct (Hsub _ (rank_single k)) as [Hs1 Hs2].
   destruct (Hsub _ (rank_follow k)) as [Hf1 Hf2].
   split.
-  - unfold cv. cbn [Spec.cv]. fold cv. rewrite Hq1, Hs1, Hf1.
-    destruct (Hsub _ (rank_branch k (map Some (map (fun x => payload_of (cv f1 x)) (r_req (rules k)))))) as [Hb1 _].
+  - unfold cvf. cbn [cv]. fold cvf. rewrite Hq1, Hs1, Hf1.
+    destruct (Hsub _ (rank_branch k (map Some (map (fun x => payload_of (cvf f1 x)) (r_req (rules k)))))) as [Hb1 _].
     rewrite Hb1. eauto.
-  - intros [|f2] Hf; [lia|]. unfold cv. cbn [Spec.cv]. fold cv.
+  - intros [|f2] Hf; [lia|]. unfold cvf. cbn [cv]. fold cvf.
     rewrite (Hq2 f2), (Hs2 f2), (Hf2 f2) by lia. rewrite Hq1, Hs1, Hf1.
-    destruct (Hsub _ (rank_branch k (map Some (map (fun x => payload_of (cv f1 x)) (r_req (rules k)))))) as [_ Hb2].
+    destruct (Hsub _ (rank_branch k (map Some (map (fun x => payload_of (cvf f1 x)) (r_req (rules k)))))) as [_ Hb2].
     now rewrite (Hb2 f2) by lia.
 Qed.
 
-Lemma cv_cvk : forall f k, (rank k < f)%nat -> cv f k = cvk k.
-Proof. intros f k H. unfold cvk, SpecInv1.cvk. fold cv. apply (cv_fuel_some (S (rank k)) k); lia. Qed.
+Lemma cv_cvk : forall f k, (rank k < f)%nat -> cvf f k = cvK k.
+Proof. intros f k H. unfold cvK, cvk. fold cvf. apply (cv_fuel_some (S (rank k)) k); lia. Qed.
 
-Lemma cvk_some : forall k, exists v, cvk k = Some v.
+Lemma cvk_some : forall k, exists v, cvK k = Some v.
 Proof. intros k. apply (cv_fuel_some (S (rank k)) k). lia. Qed.
 
+Definition cvp (x : key) : value := payload_of (cvK x).
+
+Lemma cvk_cvp : forall x, cvK x = Some (cvp x).
+Proof. intros x. unfold cvp. destruct (cvk_some x) as [v ->]. reflexivity. Qed.
+
+Lemma cvk_unfold : forall k,
+  let rl := rules k in
+  let bk := branch_keys rl (map cvK (r_req rl)) in
+  cvK k = Some (F k (r_sig rl) (map cvp (r_req rl) ++ map cvp bk) (map env (r_disc rl)) (obs rules env k), obs rules env k).
+Proof.
+  intros k rl bk. subst rl.
+  assert (Hsub : forall l, (forall x, In x l -> (rank x < rank k)%nat) -> map_opt (cvf (rank k)) l = Some (map cvp l)).
+  { intros l Hl. apply map_opt_some. intros x Hx. rewrite cv_cvk by auto. apply cvk_cvp. }
+  assert (Hm : map Some (map cvp (r_req (rules k))) = map cvK (r_req (rules k))).
+  { rewrite map_map. apply map_ext. intros x. symmetry. apply cvk_cvp. }
+  unfold cvK at 1, cvk. cbn [cv]. fold cvf.
+  rewrite (Hsub _ (rank_req k)), (Hsub _ (rank_single k)), (Hsub _ (rank_follow k)).
+  rewrite Hm. fold bk. rewrite (Hsub bk) by (apply rank_branch). reflexivity.
+Qed.
+
 End CV.
+
+(* ---------- elementary preservation ---------- *)
+
+Section Pres.
+Variable rules : key -> rule.
+Variable env : key -> N.
+Variable F : key -> N -> list value -> list N -> N -> N.
+Variable rank : key -> nat.
+
+Local Notation G := (Good rules env F rank).
+Local Notation provs_ok := (provs_ok rules env F rank).
+
+Lemma Good_ext : forall E s s', st_mem s' = st_mem s -> st_epoch s' = st_epoch s -> st_db s' = st_db s ->
+  G E s -> G E s'.
+Proof.
+  intros E s s' Hm He Hd H.
+  unfold Good, bnd, sync, rows, closed, current, done in *. rewrite Hm, He, Hd. exact H.
+Qed.
+
+Lemma Good_emit : forall E s e, G E s -> G E (emit s e).
+Proof. intros E s e. apply Good_ext; reflexivity. Qed.
+
+Lemma provs_refl : forall s, provs_ok s s.
+Proof. intros s. exists []. split; [reflexivity | constructor]. Qed.
+
+Lemma provs_trans : forall s s1 s2, provs_ok s s1 -> provs_ok s1 s2 -> provs_ok s s2.
+Proof.
+  intros s s1 s2 [l1 [H1 F1]] [l2 [H2 F2]]. exists (l2 ++ l1). split.
+  - rewrite H2, H1. now rewrite app_assoc.
+  - apply Forall_app. now split.
+Qed.
+
+Lemma provs_emit : forall s e, prov_ok rules env F rank e -> provs_ok s (emit s e).
+Proof. intros s e H. exists [e]. split; [reflexivity | now constructor]. Qed.
+
+Lemma provs_same_log : forall s s', st_log s' = st_log s -> provs_ok s s'.
+Proof. intros s s' H. exists []. split; [exact H | constructor]. Qed.
+
+End Pres.
